@@ -8,10 +8,13 @@ CONSTANTS
   BugStaleAfterDelete = FALSE
   BugGetNoAcquire = FALSE
   BugWakeAllOnError = FALSE
+  BugLeakOnCancel = FALSE
 INVARIANT HitIsLatest
 INVARIANT NoFreeWhileReferenced
 INVARIANT RefsExact
 INVARIANT SizeBound
 INVARIANT SingleFlight
 INVARIANT OneTurn
+INVARIANT NoStaleRead
+INVARIANT ReadEntryReleased
 CHECK_DEADLOCK FALSE
